@@ -513,7 +513,7 @@ def s6(chk: Check, proj: Project) -> None:
 
 
 MANIFEST = {
-    "text": "Diffs the two monkey-patched Template methods against the source of the INSTALLED Django (parsed with ast, never imported) and requires every difference to be one of the reviewed deltas; decides that templates without the component flag keep isolated_context=True and who may set the flag; enumerates every store to a Django object (patch points); shares the token-stream identity and escape-pair rules with C09; requires per-layer copying of block/extends contexts and an unconditional re-push of the block layer around slot renders. Also: block state reaches components (shared render_context, inherited BlockContext), the render's block layer exists before any snapshot, the loop layer handed to an isolated component is found by key, and Origin.template_name equals the name the template was compiled under. Round 4: the render_context layer of a component render is popped on every normal path of that call (shared with C03-S3). Round 5: the library's Node classes keep their bodies visible to Node.get_nodes_by_type (child_nodelists, against the installed Django's Node); the nesting flag is stored only on Templates the library owns - known finding F44 (loader-shared Template). Round 6: the nesting flag means 'a BlockContext is present', never its content.",
+    "text": "Diffs the two monkey-patched Template methods against the source of the INSTALLED Django (parsed with ast, never imported) and requires every difference to be one of the reviewed deltas; decides that templates without the component flag keep isolated_context=True and who may set the flag; enumerates every store to a Django object (patch points); shares the token-stream identity and escape-pair rules with C09; requires per-layer copying of block/extends contexts and an unconditional re-push of the block layer around slot renders. Also: block state reaches components (shared render_context, inherited BlockContext), the render's block layer exists before any snapshot, the loop layer handed to an isolated component is found by key, and Origin.template_name equals the name the template was compiled under. Round 4: the render_context layer of a component render is popped on every normal path of that call (shared with C03-S3). Round 5: the library's Node classes keep their bodies visible to Node.get_nodes_by_type (child_nodelists, against the installed Django's Node); the nesting flag is stored only on Templates the library owns - known finding F44 (loader-shared Template). Round 6: the nesting flag means 'a BlockContext is present', never its content. Round 7: line numbers of relexed segments (shared with C09-S1..S3); the reused prefix of a snapshot includes the already copied layer.",
     "note": "Trusted: the Django source located through importlib is the Django that runs. Not decided: byte-identical output of stock templates as behaviour; the inlining clause for extends/block/include with components (run-time RenderContext state).",
     "technique": "static translation diff against upstream source (normalised statement alignment), control dependence, patch-point inventory",
 }
